@@ -135,10 +135,18 @@ def execute(cases, mod, asan_log=None, guard=None, progress=None):
         if x is None:
             return None
         if layout == "stride2":
+            if guard is not None and len(x):
+                # no padding after the last element: it sits right before the inaccessible page
+                base = guard.place([0xDEADBEEF] * (2 * len(x) - 1))
+                base[0::2] = x
+                return base[0::2]
             base = np.full(2 * len(x) + 1, 0xDEADBEEF, dtype=np.uint32)
             base[0:2 * len(x):2] = x
             return base[0:2 * len(x):2]
         if layout == "reversed":
+            if guard is not None and len(x):
+                base = guard.place(list(reversed(x)))
+                return base[::-1]
             base = np.array(list(reversed(x)) + [0xDEADBEEF], dtype=np.uint32)
             return base[:len(x)][::-1]
         if guard is not None:
